@@ -126,12 +126,12 @@ def key_id(version):
         return sl(H(SHA384, *msg), 0, 33)
     return H(B2(33), *msg)
 
-def pie_blob(version, keydata, n=("RNG", 32)):
+def pie_blob(version, keydata, n=("RNG", 32), wk=None, header=None):
     """Wrap/pie.md. k1/k3: x = HMAC-SHA384(wk, 0x80||n) -> Ek = x[0:32], n2 = x[32:48]; Ak = HMAC-SHA384(wk, 0x81||n)[0:32];
     c = AES-256-CTR(Ek, n2, ptk); t = HMAC-SHA384(Ak, h||n||c); out t||n||c.
     k2/k4: x = BLAKE2b(key=wk, 0x80||n, 56) -> Ek|n2(24); Ak = BLAKE2b(key=wk, 0x81||n, 32); c = XChaCha20; t = BLAKE2b(key=Ak, h||n||c, 32)."""
-    wk = FLD(IN("wrapping_key"), 0)
-    h = (B(kver(version)), IN("header"))
+    wk = wk if wk is not None else FLD(IN("wrapping_key"), 0)
+    h = (B(kver(version)), header if header is not None else IN("header"))
     if version in ("v1", "v3"):
         x = MAC(HMAC384, wk, B(b"\x80"), n)
         ak = sl(MAC(HMAC384, wk, B(b"\x81"), n), 0, 32)
@@ -144,23 +144,23 @@ def pie_blob(version, keydata, n=("RNG", 32)):
         t = MAC(B2MAC(32), ak, *h, n, c)
     return cat(t, n, c)
 
-def pbkw_blob(version, keydata):
+def pbkw_blob(version, keydata, header=None, s=None, n=None):
     """PBKW.md. k1/k3: s=32 random; k = PBKDF2-HMAC-SHA384(pw, s, i, 32); Ek = SHA-384(0xFF||k)[0:32]; Ak = SHA-384(0xFE||k);
     n = 16 random; edk = AES-256-CTR(Ek, n, ptk); t = HMAC-SHA384(Ak, h||s||i_be32||n||edk); out s||i||n||edk||t.
     k2/k4: s=16 random; k = Argon2id(pw, s, mem, time, para, 32); Ek = BLAKE2b-256(0xFF||k); Ak = BLAKE2b-256(0xFE||k); n = 24 random;
     edk = XChaCha20(Ek, n, ptk); t = BLAKE2b(key=Ak, h||s||mem_be64||time_be32||para_be32||n||edk, 32); out s||mem||time||para||n||edk||t."""
     pw = IN("pass")
     P = IN("params")
-    h = (B(kver(version)), IN("header"))
+    h = (B(kver(version)), header if header is not None else IN("header"))
     if version in ("v1", "v3"):
-        s, n = ("RNG", 32), ("RNG", 16)
+        s, n = s or ("RNG", 32), n or ("RNG", 16)
         k = ("PBKDF2", HMAC384, pw, s, ("BE", 32, P), 32)
         ek = sl(H(SHA384, B(b"\xff"), k), 0, 32)
         ak = H(SHA384, B(b"\xfe"), k)
         edk = ENC(CIPHER("AES-256-CTR/128BE", ek, n), keydata)
         t = MAC(HMAC384, ak, *h, s, P, n, edk)
     else:
-        s, n = ("RNG", 16), ("RNG", 24)
+        s, n = s or ("RNG", 16), n or ("RNG", 24)
         k = ("ARGON2ID13", pw, s, ("MEMBYTES", ("BE", 64, sl(P, 0, 8))), ("BE", 32, sl(P, 8, 12)), ("BE", 32, sl(P, 12, 16)), 32)
         ek = H(B2(32), B(b"\xff"), k)
         ak = H(B2(32), B(b"\xfe"), k)
